@@ -179,6 +179,12 @@ class Recorder:
     """what the kernel handed to the external routines on this run"""
     def __init__(self):
         self.calls = []
+        self.n_tags = 0
+
+    def tag(self):
+        """unique per run (names of the fresh LU/INV/SOL symbols), also when `calls` is truncated after a prelude"""
+        self.n_tags += 1
+        return self.n_tags - 1
 
     def of(self, name):
         return [c for c in self.calls if c[0] == name]
@@ -191,7 +197,7 @@ def make_lapack(rec):
             flat = A.flat()
             m, n = int(m), int(n)
             inp = [flat[A.off + k] for k in range(m * n)]
-            tag = len(rec.calls)
+            tag = rec.tag()
             rec.calls.append(("dgetrf", n, inp, tag))
             lu = [core.real("LU%d_%d" % (tag, k)) for k in range(m * n)]
             for k in range(m * n):
@@ -206,7 +212,7 @@ def make_lapack(rec):
             if not hasattr(A.arr, "_lu_of"):
                 raise UnsupportedByShim("dgetri on a matrix that was not LU-factorised")
             inp, n0, tag0 = A.arr._lu_of
-            tag = len(rec.calls)
+            tag = rec.tag()
             out = [core.real("INV%d_%d" % (tag, k)) for k in range(n * n)]
             rec.calls.append(("dgetri", n, inp, out, tag))
             for k in range(n * n):
@@ -226,7 +232,7 @@ def make_lapack(rec):
             fa, fb = A.flat(), b.flat()
             inp = [fa[A.off + k] for k in range(n * n)]
             rhs = [fb[b.off + k] for k in range(n)]
-            tag = len(rec.calls)
+            tag = rec.tag()
             sol = [core.real("SOL%d_%d" % (tag, k)) for k in range(n)]
             # Fortran 'U' = upper triangle of the column-major matrix = LOWER triangle of the row-major memory
             if uplo in ("U", b"U"):
